@@ -44,8 +44,9 @@ func runC10(e *Env) {
 func c10Reset(e *Env, s *Sched) {
 	r := e.R
 	r.Rule("C10.reset-exhaustive", "RC+ENUM", "reset ∪ kept ∪ runnable covers the status enum", 1)
-	fn := e.Fn(schedRel, "(*ExecutionGraph).setupRetry")
+	fn := e.graphRoles().Reset
 	if fn == nil {
+		r.Unknown("the retry reset: the function of the retry constructor that zeroes node states", "-", "not found")
 		return
 	}
 	// the whole-state reset site
@@ -78,7 +79,7 @@ func c10Reset(e *Env, s *Sched) {
 	}
 	// subject: a lookup in the recorded-status map (map[int]NodeStatus)
 	isRecorded := func(v ssa.Value) bool {
-		lk, ok := ir.Resolve(v).(*ssa.Lookup)
+		lk, ok := ir.Deep(v).(*ssa.Lookup)
 		if !ok {
 			return false
 		}
@@ -88,12 +89,14 @@ func c10Reset(e *Env, s *Sched) {
 	ff := e.Facts(fn)
 	resetSet := ir.EnumSet{}
 	var facts []string
-	var expanded [][]ir.Lit
+	var expanded [][]ir.NLit
 	for _, cj := range dnf {
-		expanded = append(expanded, ff.ExpandDNFRegion(body, []ir.Lit(cj))...)
+		for _, conj := range ff.ExpandDNFRegion(body, []ir.Lit(cj)) {
+			// a status test extracted into a boolean helper (`needsRerun(status)`) is expanded
+			expanded = append(expanded, e.expandHelperCalls(ir.NormalizeAll(conj), 0)...)
+		}
 	}
-	for _, cj := range expanded {
-		lits := ir.NormalizeAll(cj)
+	for _, lits := range expanded {
 		set := ir.Restrict(lits, isRecorded, s.NS)
 		// a disjunct forced by the upstream mark (retry[u]) says nothing about the node's own recorded state
 		forced := HasVal(lits, func(v ssa.Value) bool {
@@ -140,7 +143,7 @@ func c10Reset(e *Env, s *Sched) {
 			continue
 		}
 		if lk, ok := ir.Resolve(l.Ranged).(*ssa.Lookup); ok {
-			if p, ok := e.C.PathOf(lk.X); ok && p.Suffix("from") {
+			if p, ok := e.C.PathOf(lk.X); ok && p.Suffix(e.graphRoles().Succ) {
 				el = l
 			}
 		}
@@ -211,8 +214,8 @@ func c10SameChecks(e *Env, s *Sched) {
 	r := e.R
 	r.Rule("C10.same-checks", "MPT", "retry graph: setup() before setupRetry(), error returned", 1)
 	fn := e.Fn(schedRel, "NewExecutionGraphForRetry")
-	setup := e.FnQuiet(schedRel, "(*ExecutionGraph).setup")
-	sr := e.FnQuiet(schedRel, "(*ExecutionGraph).setupRetry")
+	setup := e.graphRoles().Setup
+	sr := e.graphRoles().Reset
 	if fn == nil || setup == nil || sr == nil {
 		return
 	}
